@@ -130,7 +130,7 @@ def sut_call(key, fn, *a, **kw):
                 where = " at %s:%d" % (os.path.basename(fr.filename), fr.lineno)
                 break
         raise Violation("%s: unexpected %s: %s%s" % (key, type(e).__name__, str(e)[:300], where),
-                        key=key + ":exception")
+                        key=key.split("(")[0] + ":exception")
 
 
 def must_raise(key, fn, *a, **kw):
@@ -141,7 +141,8 @@ def must_raise(key, fn, *a, **kw):
         raise
     except Exception:  # noqa: BLE001
         return
-    raise Violation("%s: expected an exception, got %r" % (key, _short(r)), key=key + ":accepted")
+    raise Violation("%s: expected an exception, got %r" % (key, _short(r)),
+                    key=key.split("(")[0] + ":accepted")
 
 
 def _short(x):
@@ -392,9 +393,17 @@ def main(prop, tier, seed, only_facets=None):
     # 5. replay files for new violations
     lines = []
     fdir = os.path.join(VERIF, "found", prop)
+    seen_names = set()
+    seen_keys = collections.Counter()
     for v in new_violations:
         os.makedirs(fdir, exist_ok=True)
         name = "%s-%s.json" % (v["facet"], digest(v["spec"]))
+        if name in seen_names:
+            continue
+        seen_names.add(name)
+        seen_keys[(v["facet"], v.get("key"))] += 1
+        if seen_keys[(v["facet"], v.get("key"))] > 2:
+            continue  # same oracle clause already reported twice in this run
         path = os.path.join(fdir, name)
         with open(path, "w") as f:
             json.dump({"property": prop, "facet": v["facet"], "key": v.get("key"),
@@ -431,11 +440,15 @@ def main(prop, tier, seed, only_facets=None):
         ev["known_findings_reported"] = known_lines
         ev["known_finding_hits"] = n_known_hits
     os.makedirs(os.path.join(VERIF, "evidence"), exist_ok=True)
+    evdir = os.path.join(VERIF, "evidence")
+    if os.path.abspath(os.environ.get("VERIF_REPO", "/repo")) != "/repo":
+        evdir = os.path.join(VERIF, ".work", "evidence-other-tree")  # sensitivity runs
+        os.makedirs(evdir, exist_ok=True)
     if not only_facets:
-        tmp = os.path.join(VERIF, "evidence", prop + ".json.tmp")
+        tmp = os.path.join(evdir, prop + ".json.tmp")
         with open(tmp, "w") as f:
             json.dump(ev, f, indent=1, default=str)
-        os.replace(tmp, os.path.join(VERIF, "evidence", prop + ".json"))
+        os.replace(tmp, os.path.join(evdir, prop + ".json"))
 
     # 7. report
     print("%s tier=%s seed=%d: %d cases (%d distinct non-trivial) in %.1fs; facets: %s" % (
